@@ -54,7 +54,7 @@ META = {
     "trusted_base": [
         "CPython ast",
         "the installed PyYAML sources yaml/scanner.py, yaml/reader.py as oracle",
-        "tabled deliberate deviations from PyYAML (one reason each)",
+        "tabled deliberate deviations from PyYAML (one reason each); PyYAML's flow-context branches are read with flow_level == 0 (an option block is block context)",
         "two tabled loop proofs (C07.R2 ASSUMED)",
     ],
     "assumptions": [
@@ -214,6 +214,10 @@ def r4_tables(corpus: Corpus, rep: Report, tier: str):
     rep.rule("C07.R4", "escape tables, character classes, line accounting and the scanner fingerprints agree with the installed PyYAML")
     m = optmod(corpus)
     sib, scanner = _yaml_scanner(corpus, rep)
+    try:
+        rep.note(f"oracle: PyYAML {corpus.sibling('yaml/__init__.py').const('__version__')} ({sib.path})")
+    except (AnchorMissing, Unsupported):
+        rep.note(f"oracle: PyYAML (version not readable) ({sib.path})")
     # escape tables, cell by cell
     for ours, theirs in (("_ESCAPE_REPLACEMENTS", "ESCAPE_REPLACEMENTS"), ("_ESCAPE_CODES", "ESCAPE_CODES")):
         a = m.const(ours)
@@ -240,9 +244,12 @@ def r4_tables(corpus: Corpus, rep: Report, tier: str):
             continue
         n += 1
         want: set = set()
-        for p in name[len("_CHARS_"):].split("_"):
-            if p not in parts:
-                raise Unsupported(f"character-class constant {name}: unknown component {p}")
+        comps = name[len("_CHARS_"):].split("_")
+        if any(p not in parts for p in comps):
+            n -= 1
+            rep.listed("C07.R4", f"{m.name}|{name}", m.site(node), "character class with a component the rule has no oracle for; its uses are judged through the guard fingerprints")
+            continue
+        for p in comps:
             want |= parts[p]
         got = m.const(name)
         k = f"{m.name}|{name}"
@@ -917,6 +924,13 @@ def r4_fingerprints(corpus: Corpus, rep: Report, tier: str) -> None:
         rep.saw_function(of.fq)
         a = Side(of, False).fingerprints()
         b = Side(yf, True, sib.cls(y.split(".")[0])).fingerprints()
+        # does the port lack anything PyYAML has (beyond the tabled deviations)?  If not, unexplained extras are pure
+        # additions (a redundant guard, an early return): undecidable here -> ANALYSIS-ERROR, not VIOLATION.
+        lacks = False
+        for kind, x, yv in zip(("guards", "effects", "emits", "flags"), a, b):
+            allowed = DEVIATIONS.get((o, kind), {}).get("yaml", {})
+            if any(n > allowed.get(e, (0, ""))[0] for e, n in (yv - x).items()):
+                lacks = True
         for kind, x, yv in zip(("guards", "effects", "emits", "flags"), a, b):
             dev = DEVIATIONS.get((o, kind), {})
             only_o, only_y = x - yv, yv - x
@@ -927,6 +941,12 @@ def r4_fingerprints(corpus: Corpus, rep: Report, tier: str) -> None:
                     cnt, reason = allowed.get(e, (0, ""))
                     if n <= cnt:
                         rep.assumed("C07.R4", f"{of.fq}|{kind}|{'only here' if side == 'opt' else 'only in PyYAML'}: {_fmt(e)}", of.site(), f"deliberate deviation: {reason}")
+                    elif side == "opt" and not lacks:
+                        rep.error(
+                            "C07.R4",
+                            f"{_site_of(of, e)} {o} has an additional {kind[:-1]} `{_fmt(e)}` (x{n - cnt}) that PyYAML's {y} lacks while nothing of PyYAML's is missing: "
+                            "a redundant guard/early exit or a deliberate deviation - cannot be decided structurally; table it in DEVIATIONS with a reason",
+                        )
                     elif side == "opt":
                         rep.violation(
                             "C07.R4",
@@ -950,6 +970,17 @@ def _fmt(e) -> str:
 
 
 def _site_of(fi: FunctionInfo, entry) -> str:
+    """the line of the first construct of the function that yields the entry, else the function head"""
+    side = Side(fi, False)
+    for n in sorted(fi.local_nodes(), key=lambda n: (getattr(n, "lineno", 0), getattr(n, "col_offset", 0))):
+        if isinstance(entry, tuple) and isinstance(n, ast.Compare) and len(n.ops) == 1:
+            g = side.guard(n)
+            if g[0] == entry[0] and g[2] == entry[2] and (g[1] == entry[1] or NEG.get(g[1]) == entry[1]):
+                return fi.module.site(n)
+        elif isinstance(entry, str) and isinstance(n, (ast.Call, ast.Return)):
+            toks = side.effects([n]) if isinstance(n, ast.Call) else ["return:" + side.norm(n.value)]
+            if entry in toks:
+                return fi.module.site(n)
     return fi.site()
 
 
